@@ -241,7 +241,8 @@ pub fn resolve_in(abs: &Path, confine: Option<&Path>) -> Resolved {
         }
     }
     // a trailing slash demands a directory; remember it
-    let trailing_slash = s.len() > 1 && s.ends_with('/');
+    // (`file/.` is ENOTDIR just like `file/`; Path::components() drops the trailing `.`)
+    let trailing_slash = s.len() > 1 && (s.ends_with('/') || s.ends_with("/."));
     let mut cur = PathBuf::from("/");
     let mut missing = false;
     let mut hops = 0usize;
